@@ -34,6 +34,7 @@ const quiesceCap = 20 * time.Second
 
 func runWorker(c wcase) (sig string, err error, classes []string) {
 	var mu sync.Mutex
+	var gate sync.RWMutex
 	runs, disturbed := 0, 0
 	opsDone := false
 	var w *nlhist.World
@@ -45,13 +46,19 @@ func runWorker(c wcase) (sig string, err error, classes []string) {
 		if !d || w == nil {
 			return
 		}
+		// the store's "wait for read bookkeeping" helper is a WaitGroup.Wait: it must never run while
+		// another goroutine starts a read (sync.WaitGroup forbids Add next to Wait and panics with
+		// "WaitGroup is reused"), so the reads of this hook exclude the main goroutine's wait below
+		// and the hook itself only yields for a moment instead of waiting
+		gate.RLock()
 		for _, f := range w.Files {
 			if f.Known && !f.Uploaded {
 				ctx := sctx.SetRootHash(context.Background(), f.Ref)
 				_, _ = w.N.DB.Get(ctx, storage.ModeGetRequest, f.Ref)
 			}
 		}
-		w.N.DB.VerifWaitUpdateGC()
+		gate.RUnlock()
+		time.Sleep(2 * time.Millisecond)
 		mu.Lock()
 		disturbed++
 		mu.Unlock()
@@ -62,7 +69,11 @@ func runWorker(c wcase) (sig string, err error, classes []string) {
 	if e != nil {
 		return "C13/harness", e, nil
 	}
-	defer w.Close()
+	defer func() {
+		gate.Lock() // Close waits on the same WaitGroup
+		w.Close()
+		gate.Unlock()
+	}()
 	for i, op := range c.H.Ops {
 		res := w.Apply(op)
 		_ = i
@@ -79,7 +90,9 @@ func runWorker(c wcase) (sig string, err error, classes []string) {
 	deadline := time.Now().Add(quiesceCap)
 	var last uint64
 	for {
+		gate.Lock()
 		w.N.DB.VerifWaitUpdateGC()
+		gate.Unlock()
 		d, e := w.N.Dump()
 		if e != nil {
 			return "C13/harness", e, nil
